@@ -25,8 +25,8 @@ RULE = ('family = one shuffled dataset object (one-time shuffle, per-epoch reshu
 PROBES = ['second_iterator_started_while_first_in_flight', 'three_iterators_in_flight',
           'adversary_reseeded_global_state', 'displacement_bound_reached']
 BUDGET = {
-    'quick': {'families': 2500, 'wall_cap': 240, 'shrink_s': 10},
-    'thorough': {'families': 120000, 'wall_cap': 3000, 'shrink_s': 30},
+    'quick': {'families': 20000, 'wall_cap': 420, 'shrink_s': 10},
+    'thorough': {'families': 200000, 'wall_cap': 5400, 'shrink_s': 30},
 }
 COMPONENTS = {
     'real': ['lazy_dataset.core: Dataset.shuffle / tile / random_choice, ReShuffleDataset, '
